@@ -669,6 +669,18 @@ func (env *SpecEnv) evalQuant(q *EQuant) (Val, types.Type) {
 		case "string":
 			t = tString
 		default:
+			if strings.HasPrefix(q.Type, "mapof:") {
+				full, err := vc.qualify(strings.TrimPrefix(q.Type, "mapof:"), env.pkg, 2)
+				if err != nil {
+					sfail("quantifier type: %v", err)
+				}
+				ft := vc.fieldType(full)
+				if ft == nil {
+					sfail("quantifier type: field %s not found", full)
+				}
+				t = ft
+				break
+			}
 			isPtr := strings.HasPrefix(q.Type, "*")
 			nt, err := vc.resolveNamed(strings.TrimPrefix(q.Type, "*"), env.pkg)
 			if err != nil {
